@@ -335,6 +335,9 @@ Definition x_cookie_states (u : N) : list wtoken :=
   [ with_times (tok u bU2F) (-7200) (-30); with_times (tok u bU2F) (-7200) (-3600);
     with_times (tok u bTOTP) (-7200) (-30); with_times (tok u 4094) (-7200) (-3600);
     with_times (tok u bU2F) 30 3600; with_times (tok u bU2F) 3600 7200;
+    with_times (tok u bU2F) (-100) (-1700000000);              (* no exp claim: expired in 1970 *)
+    with_times (tok u bU2F) (-1700000000) 3600;                (* no nbf claim: valid *)
+    with_times (tok u bTOTP) (-100) 2300000000;                (* expires in 2100: valid *)
     with_claims (tok u bU2F) other_issuer [iss0]; with_claims (tok u bU2F) iss0 [other_issuer];
     with_claims (tok u bU2F) iss0 []; with_claims (tok u bU2F) iss0 [other_issuer; iss0];
     with_flags (tok u bU2F) true true false true true 1; with_flags (tok u bU2F) true true false true true 2;
